@@ -747,6 +747,11 @@ MID = alphabet(AB, 2, ["1", "3", "-"])                # 21 sets + 2 + 6 + 4 = 33
 SMALL = alphabet(AB, 2, ["1", "-"])                   # 14 sets + 2 + 6 + 4 = 26 operations
 EMPTY = alphabet(["a", "_"], 2, ["1", "-"])           # the same with the empty name in place of b (tree_formatter skips it)
 PREFIX = alphabet(["a", "ab"], 2, ["1", "-"])         # a name that is a proper prefix of the other one
+CASE = alphabet(["a", "A"], 2, ["1", "-"])            # names that differ in case only
+SUFFIX = alphabet(["a", "ba"], 2, ["1", "-"])         # a name that is a proper suffix of the other one
+CHAIN_LOCS = [["a"] * d for d in range(7)]            # -, a, a.a, … down to depth 6
+CHAIN = ([f"set,{loc_str(l)},{v}" for l in CHAIN_LOCS[:6] for v in ("1", "-")] + ["objr,a,F"]
+         + [f"objl,{loc_str(l)},a,-" for l in CHAIN_LOCS[:5]] + ["objc,0,a,F", "objc,1,a,-"])   # one deep chain (depth <= 5, objc beyond)
 
 
 def small_history_lines(rng, thorough):
@@ -765,6 +770,9 @@ def small_history_lines(rng, thorough):
         out += enum_lines(3, 1, "e", root, cfg, SMALL, OBS2)
     out += enum_lines(3, 1, "e", "3", "D", EMPTY, paths(["a", "_"], 2) + [["a", "_", "a"], ["_", "_", "_"]])
     out += enum_lines(3, 1, "e", "3", "D", PREFIX, paths(["a", "ab"], 2) + [["ab", "a", "ab"], ["a", "ab", "a"], ["b"], ["abc"], ["a", "b"]])
+    for alpha, names in ((CASE, ["a", "A"]), (SUFFIX, ["a", "ba"])):
+        out += enum_lines(3, 1, "e", "3", "D", alpha, paths(names, 2) + [[names[1], names[0], names[1]], ["b"], [names[1] + "a"]])
+    out += enum_lines(3, 1, "e", "3", "D", CHAIN, CHAIN_LOCS)
     r = rng.fork("enum-sample")
     if thorough:
         out += enum_lines(3, 2, "f", "3", "M", FULL, OBS3)
@@ -909,7 +917,7 @@ def batches(rng, tier):
                      "levels 1,3,-; objr; objl; objc on the first two objects) on a context with root warning, observed after every step "
                      "(get of all 15 locations, level/enabled of every object, one log or FCPPT_LOG_* per object); the same observed only at "
                      "the end; every history of exactly 4 operations over the depth-2 alphabet (33 operations); root - / 1 and stream "
-                     "configurations N / M over the 26-operation alphabet; the alphabets with the empty name and with the names a, ab; quick: 1/64 of the 4-operation "
+                     "configurations N / M over the 26-operation alphabet; the alphabets with the empty name, with the name pairs a/ab, a/A, a/ba and with one chain a.a.a.a.a (depth 5, observed to depth 6); quick: 1/64 of the 4-operation "
                      "histories over the full alphabet (thorough: all, plus all 5-operation histories over the 26-operation alphabet)")
     yield mks("api-exhaustive", api_lines(),
               "level_from_string / level_to_string / operator<< / operator>> on every name and near-miss; every location program of "
